@@ -77,7 +77,7 @@ def ncswan(T, with_wind=True, with_depth=True, latlon_time=False):
         data["ywnd"] = (("time", "points"), v)
     if with_depth:
         data["depth"] = (("time", "points"), T["dpt"])
-    coords = dict(time=_times(nt), frequency=T["f"], direction=T["d"] * D2R)
+    coords = dict(time=_times(nt), frequency=T["f"], direction=(T["d"] + 360.0 * T.get("turns", 0)) * D2R)
     return xr.Dataset(data, coords=coords)
 
 
@@ -89,7 +89,7 @@ def wwm(T, with_wind=True, with_depth=True):
     sig = 2.0 * math.pi * T["f"]
     # E(f, theta_deg) = N * sigma * 2 pi / R2D  ->  N = E * R2D / (2 pi sigma)
     AC = T["E"] * R2D / (2.0 * math.pi * sig[None, None, :, None])
-    data = dict(AC=(("ocean_time", "nbstation", "nfreq", "ndir"), AC), SPSIG=(("nfreq",), sig), SPDIR=(("ndir",), T["d"] * D2R),
+    data = dict(AC=(("ocean_time", "nbstation", "nfreq", "ndir"), AC), SPSIG=(("nfreq",), sig), SPDIR=(("ndir",), (T["d"] + 360.0 * T.get("turns", 0)) * D2R),
                 lon=(("nbstation",), T["lon"]), lat=(("nbstation",), T["lat"]))
     if with_wind:
         u, v = _uv(T["wspd"], T["wdir"])
